@@ -12,7 +12,10 @@ def tu_check(tu):
     es = errswallow.analyse_tu(tu)
     from ..rules import iterexhaust
     ie = iterexhaust.analyse_tu(tu)
-    r["findings"] = r["findings"] + es["findings"] + ie["findings"]
+    from ..rules import realtype
+    rt = realtype.analyse_tu(tu)
+    r["stats"]["real_type_tests"] = rt["stats"]["real_type_tests"]
+    r["findings"] = r["findings"] + es["findings"] + ie["findings"] + rt["findings"]
     r["stats"]["pyiter_sites"] = ie["stats"]["pyiter_sites"]
     r["stats"]["guarded_clears"] = es["stats"]["guarded_clears"]
     r["stats"]["clears"] = sum(es["stats"].values())
@@ -21,7 +24,7 @@ def tu_check(tu):
 
 def run(tier="quick", seed=0, use_cache=True):
     res = engine.Result("C10")
-    res.rules = ["SETOP-TABLE", "OP-WIRING", "ALIAS-GUARD", "FRESH-ONLY", "OPERAND-ADAPT", "INPLACE-MONOTONE", "INPLACE-OPERAND", "INPLACE-REPLACE", "ERR-SWALLOW", "ITER-EXHAUST"]
+    res.rules = ["SETOP-TABLE", "OP-WIRING", "ALIAS-GUARD", "FRESH-ONLY", "OPERAND-ADAPT", "INPLACE-MONOTONE", "INPLACE-OPERAND", "INPLACE-REPLACE", "ERR-SWALLOW", "ITER-EXHAUST", "REAL-TYPE"]
     res.exhaustive = True
     res.explanation = (
         "Decision-table extraction for difference / union / intersection: for "
@@ -61,6 +64,8 @@ def run(tier="quick", seed=0, use_cache=True):
     res.count("INPLACE-REPLACE", sum(r["stats"].get("inplace_and_results", 0) for r in out.values()))
     res.floor("class-guarded PyErr_Clear sites (OO)", oo["guarded_clears"], 10)
     res.floor("PyIter_Next sites (OO)", oo["pyiter_sites"], 8)
+    res.floor("real-type tests against the unit's type objects (OO)", oo["real_type_tests"], 4)
+    res.count("REAL-TYPE", sum(r["stats"]["real_type_tests"] for r in out.values()))
     res.count("ITER-EXHAUST", sum(r["stats"]["pyiter_sites"] for r in out.values()))
     res.count("ERR-SWALLOW", sum(r["stats"]["clears"] for r in out.values()))
     res.floor("translation units", len(out), 22)
